@@ -483,7 +483,47 @@ func (g *tgen) structType(depth, nfields int) *ftype {
 		}
 		t.fields = append(t.fields, f)
 	}
+	// Shared with Go's encoding/asn1: when an optional explicitly tagged field is absent and the next
+	// element is empty and the last one of the enclosing SEQUENCE, Unmarshal fails with "explicit tag has
+	// no child" before it compares the tag. Such a field is therefore only generated when a mandatory,
+	// never-empty field follows it; otherwise it becomes implicit or mandatory.
+	for i := len(t.fields) - 1; i >= 0; i-- {
+		f := t.fields[i]
+		if !(f.optional && f.tag >= 0 && f.explicit) {
+			continue
+		}
+		ok := false
+		for _, later := range t.fields[i+1:] {
+			if neverEmpty(later) {
+				ok = true
+				break
+			}
+		}
+		if ok {
+			continue
+		}
+		if g.rng.IntN(2) == 0 {
+			f.explicit = false
+		} else {
+			f.optional, f.hasDefault, f.omitempty = false, false, false
+		}
+	}
 	return t
+}
+
+// neverEmpty: the field is always present and its element always has content.
+func neverEmpty(f *ffield) bool {
+	if f.optional {
+		return false
+	}
+	if f.tag >= 0 && f.explicit {
+		return true
+	}
+	switch f.typ.kind {
+	case fInt, fInt32, fInt64, fBigInt, fBool, fOID, fBitString, fTime, fEnum:
+		return true
+	}
+	return false
 }
 
 func (g *tgen) field(depth int, name string, plain bool) *ffield {
@@ -829,6 +869,11 @@ func (g *vgen) value(t *ftype, f *ffield) *val {
 			for i := range v.bytes {
 				v.bytes[i] = byte(rng.Uint32())
 			}
+			if len(v.bytes) == 0 && f != nil && f.omitempty {
+				// an empty non-nil slice under omitempty is written as "absent" and comes back nil, which can
+				// flip an enclosing optional struct to its zero value (same in Go): the nil form is used
+				v.isNil = true
+			}
 		}
 	case fOID:
 		if optional && rng.IntN(5) == 0 {
@@ -883,6 +928,9 @@ func (g *vgen) value(t *ftype, f *ffield) *val {
 		case r == 0:
 			v.isNil = true
 		case r == 1:
+			if f != nil && f.omitempty {
+				v.isNil = true // see fBytes
+			}
 		case r < 6:
 			v.elems = []*val{g.value(elem, nil)}
 		default:
